@@ -52,7 +52,7 @@ def sp_forall(ex, e, st, exists=False):
     t = st.clone()
     vs = []
     for n in names:
-        v = fresh(n)
+        v = z3.Int(n + "#q")          # deterministic bound-variable names: the same contract text yields the same formula
         t.env[n] = v
         vs.append(v)
     guard = []
@@ -321,6 +321,54 @@ def row_arc(acc, shuf, v, d):
     return out
 
 
+class _RowMat:
+    """adapter: a raw row array (and optionally a raw table row) seen as a one-row matrix, so that the row_* helpers apply."""
+
+    def __init__(self, row):
+        self.row = row
+
+    def at(self, v, j):
+        return self.row[j]
+
+
+def _rowpair(ex, e, st, n):
+    row = _RowMat(ex.ev(e.args[0], st))
+    srow = ex.ev(e.args[1], st)
+    srow = srow if isinstance(srow, NoneV) else _RowMat(srow)
+    rest = [_int(ex.ev(x, st)) for x in e.args[2:2 + n]]
+    return row, srow, rest
+
+
+def sp_rdeg(ex, e, st):
+    return row_deg(_RowMat(ex.ev(e.args[0], st)), iv(0))
+
+
+def sp_rarc(ex, e, st):
+    row, srow, (d,) = _rowpair(ex, e, st, 1)
+    return row_arc(row, srow, iv(0), d)
+
+
+def sp_rdigit(ex, e, st):
+    row, srow, (j,) = _rowpair(ex, e, st, 1)
+    out = row_rank(row, srow, iv(0), 3)
+    for c in (2, 1, 0):
+        out = z3.If(j == c, row_rank(row, srow, iv(0), c), out)
+    return out
+
+
+def sp_is_perm_row(ex, e, st):
+    r = ex.ev(e.args[0], st)
+    ent = [r[j] for j in range(4)]
+    return z3.And(*[z3.And(x >= 0, x <= 3) for x in ent], z3.Distinct(*ent))
+
+
+def sp_row(ex, e, st):
+    m = ex.ev(e.args[0], st)
+    if isinstance(m, NoneV):
+        return m
+    return _mat(m).arr2[_int(ex.ev(e.args[1], st))]
+
+
 def sp_deg(ex, e, st):
     return row_deg(_mat(ex.ev(e.args[0], st)), _int(ex.ev(e.args[1], st)))
 
@@ -374,12 +422,23 @@ def sp_enc_step(ex, e, st):
     p = _int(ex.ev(e.args[5], st))
     v = vtx.at(p)
     d = row_deg(acc, v)
-    digit = gq.at(p) % z3.If(d >= 1, d, iv(1))
+    x = gq.at(p)
+    # divisions and remainders by the LITERAL radices 2, 3, 4 (selected by the out-degree): linear arithmetic for the solvers
+    digit = z3.If(d == 2, x % 2, z3.If(d == 3, x % 3, x % 4))
+    nxt = z3.If(d == 2, x / 2, z3.If(d == 3, x / 3, z3.If(d == 4, x / 4, x)))
     col = z3.If(d > 1, row_arc(acc, shuf, v, digit), row_arc(acc, NONE, v, iv(0)))
     nuc = z3.If(col == 0, iv(65), z3.If(col == 1, iv(67), z3.If(col == 2, iv(71), iv(84))))
-    return z3.And(0 <= v, v < acc.rows, d >= 1, gq.at(p) > 0,
-                  z3.If(d > 1, gq.at(p + 1) == gq.at(p) / z3.If(d >= 1, d, iv(1)), gq.at(p + 1) == gq.at(p)),
+    return z3.And(0 <= v, v < acc.rows, d >= 1, x > 0, gq.at(p + 1) == nxt,
                   s.at(p) == nuc, vtx.at(p + 1) == acc.arr2[v][col], acc.arr2[v][col] >= 0)
+
+
+def sp_link(ex, e, st):
+    """link(dg, dd, gq, i): position i contributes digit dd[i] in radix dg[i] to the quotient chain: gq[i] == dd[i] + dg[i] * gq[i+1],
+    written per literal radix 1..4 so that no product of two unknowns occurs."""
+    dg, dd, gq = [_seq(ex.ev(x, st)) for x in e.args[:3]]
+    i = _int(ex.ev(e.args[3], st))
+    cases = [z3.And(dg.at(i) == r, gq.at(i) == dd.at(i) + r * gq.at(i + 1), 0 <= dd.at(i), dd.at(i) < r) for r in (1, 2, 3, 4)]
+    return z3.Or(*cases)
 
 
 def sp_first(ex, e, st):
@@ -519,6 +578,6 @@ def sp_accepts(ex, e, st):
 SPEC = {
     "forall": sp_forall, "exists": lambda ex, e, st: sp_forall(ex, e, st, exists=True), "implies": sp_implies, "old": sp_old,
     "digits": sp_digits, "val": sp_val, "dval": sp_dval, "val2": sp_val2, "canon": sp_canon, "ipow": sp_ipow, "dig": sp_dig,
-    "same": sp_same_seq, "upd": sp_upd, "accepts": sp_accepts, "rwalkv": sp_rwalkv, "A2": sp_A2, "vt_matches": sp_vt_matches, "rwt": sp_rwt, "rlv": sp_rlv, "rhv": sp_rhv, "here": sp_here, "deg": sp_deg, "arc_of_digit": sp_arc_of_digit, "digit_of_arc": sp_digit_of_arc, "is_accessor": sp_is_accessor,
-    "is_table": sp_is_table, "first": sp_first, "second": sp_second, "dec_step": sp_dec_step, "walkv": sp_walkv, "enc_step": sp_enc_step, "wt": sp_wt, "lv": sp_lv, "hv": sp_hv, "ascents": sp_ascents, "nsucc": sp_nsucc, "rsum": sp_rsum, "code": sp_code, "dnav": sp_dnav, "codes": sp_codes, "is_dna": sp_is_dna, "pv": sp_pv, "store": sp_store, "A": sp_A, "D": sp_D, "P": sp_P, "seq_is": sp_seq_is, "seq_is_cons": sp_seq_is_cons, "ite": sp_ite, "isnone": sp_isnone, "cnt": sp_cnt, "ssum": sp_ssum,
+    "same": sp_same_seq, "upd": sp_upd, "accepts": sp_accepts, "rdeg": sp_rdeg, "rarc": sp_rarc, "rdigit": sp_rdigit, "is_perm_row": sp_is_perm_row, "row": sp_row, "rwalkv": sp_rwalkv, "A2": sp_A2, "vt_matches": sp_vt_matches, "rwt": sp_rwt, "rlv": sp_rlv, "rhv": sp_rhv, "here": sp_here, "deg": sp_deg, "arc_of_digit": sp_arc_of_digit, "digit_of_arc": sp_digit_of_arc, "is_accessor": sp_is_accessor,
+    "is_table": sp_is_table, "first": sp_first, "second": sp_second, "dec_step": sp_dec_step, "walkv": sp_walkv, "enc_step": sp_enc_step, "link": sp_link, "wt": sp_wt, "lv": sp_lv, "hv": sp_hv, "ascents": sp_ascents, "nsucc": sp_nsucc, "rsum": sp_rsum, "code": sp_code, "dnav": sp_dnav, "codes": sp_codes, "is_dna": sp_is_dna, "pv": sp_pv, "store": sp_store, "A": sp_A, "D": sp_D, "P": sp_P, "seq_is": sp_seq_is, "seq_is_cons": sp_seq_is_cons, "ite": sp_ite, "isnone": sp_isnone, "cnt": sp_cnt, "ssum": sp_ssum,
 }
